@@ -3,4 +3,6 @@ pub mod conc;
 pub mod drive;
 pub mod gen;
 pub mod oracle;
+pub mod spmc;
 pub mod tok;
+pub mod topic;
